@@ -9,7 +9,8 @@ const char *engine_name = "c05_reupd";
 const bool ordered = false;
 const char *stdout_marker = "Ensemble Avg Energy";
 const char *stdout_branch_marker = "NOT a positive definite";
-const double numeric_rel_tol = 1e-6;
+const double numeric_rel_tol = 0;   // written parameters are never compared numerically (ill-conditioned solve); lattice plans are compared byte for byte
+const bool exact_lattice_plans = true;
 const double conditioning_gate = 1e-5;
 
 enum { V_TWO = 1, V_SIMPLE = 2 };
@@ -19,6 +20,9 @@ void tool_generate(Plan &p, sim::Rng &r, const std::string &) {
   if (r.chance(0.4)) p.variant |= V_TWO;
   if (r.chance(0.2)) p.variant |= V_SIMPLE;
   if (p.sparse_mask && r.chance(0.7)) p.chain = 1;  // single beads: a sparse frame then has an empty neighbour list
+  if (r.chance(0.6)) {  // exact plans: see tool_build
+    p.lattice = 1; p.chain = 1; p.fmt = 1; p.vol_jitter = 0; p.sparse_mask = 0; p.nmol = 4 + (int)r.below(13); if (p.F < 4 && r.chance(0.7)) p.F = 4 + (int)r.below(8); p.variant &= ~V_TWO;
+  }
 }
 
 js::Value tool_variant_json(const Plan &p) {
@@ -42,7 +46,7 @@ static std::string rdf_target() {
 
 void tool_build(const Plan &p, Case &c) {
   bool two = (p.variant & V_TWO) && p.chain >= 2;
-  double box = 1.7 + 0.1 * (double)(p.case_seed % 6);
+  double box = p.lattice ? 2.0 : 1.7 + 0.1 * (double)(p.case_seed % 6);
   c.files["topol.xml"] = gen_topology_xml(p, two);
   std::string trj = p.fmt == 0 ? "traj.vdump" : "traj.vgro";
   c.files[trj] = gen_trajectory(p, box, p.nmol * p.chain);
@@ -51,7 +55,10 @@ void tool_build(const Plan &p, Case &c) {
   if (p.variant & V_SIMPLE) o << " <nbsearch>simple</nbsearch>\n";
   o << inter("A-A", "A", "A");
   if (two) o << inter("A-B", "A", "B");
-  o << " <inverse>\n  <kBT>2.4942</kBT>\n  <scale>0.5</scale>\n </inverse>\n</cg>\n";
+  // lattice plans: kBT = 2 makes beta = 0.5 and beta^2 = 0.25 exact, pair distances are exactly 0.25 or 0.5 nm, so r^-6 is
+  // 4096 or 64 and r^-12 is 2^24 or 4096 and every per-frame derivative is an integer with few significant bits: DS_ and HS_ are sums of exactly representable numbers,
+  // independent of the order in which frames and workers are added up, and the written files must be byte-identical
+  o << " <inverse>\n  <kBT>" << (p.lattice ? "2" : "2.4942") << "</kBT>\n  <scale>0.5</scale>\n </inverse>\n</cg>\n";
   c.files["settings.xml"] = o.str();
   c.cwd_files["A-A.dist.tgt"] = rdf_target();
   c.cwd_files["A-A.param.cur"] = "0 0.0001 i\n1 0.01 i\n";
